@@ -7,6 +7,15 @@ ROOT = os.path.dirname(os.path.dirname(os.path.abspath(__file__)))
 ALL = [f"C{i:02d}" for i in range(1, 21)]
 
 CLAIMED = {
+    "C16": dict(
+        text="Bounded symbolic execution (CrossHair/z3) of the real dispatcher, StreamIO/ThrottleStreamIO timeouts and ConnectionConditions(wait=True) on a virtual-time loop with SYMBOLIC "
+             "idle/socket/wait_future timeouts and gaps (integer ms): drop at exactly last command + idle_timeout and never earlier, 425 at exactly + wait_future_timeout with the session continuing, "
+             "stalled data connection (built by the real PASV/EPSV handler) given up exactly socket_timeout after it last moved, blocked control write bounded by socket_timeout, clean ledger afterwards.",
+        note="Trusted: CrossHair/z3, VLoop's integer virtual clock (real asyncio wait_for/timeouts run on it unchanged), scripted sockets. Ties at the same instant accepted either way. "
+             "Outside: float timeouts, path_timeout, kernel buffering.",
+        technique="bounded symbolic execution of the real Python code (CrossHair 0.0.110 + z3): symbolic virtual time",
+        design_ref="DESIGN.md section 3 C16",
+    ),
     "C14": dict(
         text="Bounded symbolic execution (CrossHair/z3) of the real dispatcher, abor, worker decorator and transfer workers with ABOR arriving at a symbolic event-loop iteration after the "
              "150 mark (data connection made, withheld, or made late): transcript after 150 is exactly [completion, 226] / [426, 226] / [425, 226], no teardown, data connection closed, "
